@@ -3,7 +3,7 @@ import itertools
 
 from hypothesis import strategies as st
 
-from aiohomekit.controller.ip.connection import InsecureHomeKitProtocol
+from aiohomekit.controller.ip.connection import HomeKitConnection, InsecureHomeKitProtocol
 from vlib import vtime
 from vlib.runner import Layer, Property
 
@@ -68,8 +68,11 @@ class _Fut:
         self.log.append(("EXC", exc))
 
 
-class _Conn:
+class _Conn(HomeKitConnection):
+    """The real connection object (so that anything the protocol reads from it exists) with the two callbacks recorded."""
+
     def __init__(self, log):
+        super().__init__(None, ["10.0.0.1"], 51826)
         self.log = log
 
     def event_received(self, ev):
@@ -202,6 +205,18 @@ def all_cut_cases(draw, which):
     return {"msgs": msgs, "cuts": which}
 
 
+def run_secure(case, R):
+    """The same message streams as the accessory really delivers them: inside encrypted frames, the ciphertext split across reads
+    (oracle and harness of C05's inbound layers; a failure is reported under the C05 clause names)."""
+    from props.c05 import run_inbound
+    run_inbound(case, R)
+
+
+def secure_cases():
+    from props.c05 import inbound_cases
+    return inbound_cases("random")
+
+
 SPEC = Property(
     P, "exploration",
     rule=("1..5 well-formed HTTP/1.1 and EVENT/1.0 messages (status codes, 0..6 headers with casing and whitespace variants, body by "
@@ -214,6 +229,7 @@ SPEC = Property(
         Layer("all-single-cuts", run_case, strategy=lambda: all_cut_cases("all1"), n={"quick": 400, "thorough": 6000}, min_nontrivial=100),
         Layer("all-double-cuts", run_case, strategy=lambda: all_cut_cases("all2"), n={"quick": 96, "thorough": 1600}, min_nontrivial=30),
         Layer("random-cuts", run_case, strategy=random_cut_cases, n={"quick": 6000, "thorough": 200000}, min_nontrivial=1000),
+        Layer("through-secure-session", run_secure, strategy=secure_cases, n={"quick": 400, "thorough": 8000}, min_nontrivial=50),
     ],
     assumptions=["only well-formed messages: no chunk extensions, no trailers, 'chunked' in lower case, reason phrase present",
                  "header names compared case-insensitively, values after stripping optional whitespace"],
